@@ -10,6 +10,8 @@ import Driver.C19
 import Driver.C17
 import Driver.C07
 import Driver.C05
+import Driver.C15
+import Driver.C16
 /-!
 `sfdriver`: executable models behind a line protocol.  One request per line
 (`<model> <op> <args…>`), one reply line per request.  Core-only (no Mathlib below this file).
@@ -29,6 +31,8 @@ def dispatch (ws : List String) : String :=
   | "c17" :: rest => Driver.C17.handle rest
   | "c07" :: rest => Driver.C07.handle rest
   | "c05" :: rest => Driver.C05.handle rest
+  | "c15" :: rest => Driver.C15.handle rest
+  | "c16" :: rest => Driver.C16.handle rest
   | _ => "bad-op"
 
 partial def loop (hin : IO.FS.Stream) (hout : IO.FS.Stream) : IO Unit := do
